@@ -156,24 +156,30 @@ CLAIMED = {
         technique="Coq nested induction on type shapes + exhaustive-pair correspondence + algosdk semantic oracle",
         design_ref="DESIGN.md §4 C19, design_notes/C19.md"),
     "C12": dict(
-        text="Proof (Coq, closed under the global context): for every component list, hash oracle and template instantiation, if createConstantBlocks succeeds on an input whose constant pseudo-ops "
-             "assemble, the output is block lines ++ body, every non-constant component is unchanged in place and every constant site loads - index resolved against the emitted block, or push immediate - "
-             "exactly the value the pseudo-op denotes per the assembler grammar (C12_constants_sites_preserved), with a single-step simulation on the AVM step function at each site; constants.py's literal "
-             "reading agrees with the assembler's on every spelling both read. Refuted and recorded as known findings: constant-block indices above 255 (257+ distinct repeated constants), addr-template context. "
-             "Tie: exact text equality model vs real extract*Value / createConstantBlocks / compileTeal(assembleConstants=True) at v3..10; model-independent site-value oracle on the real output pair and "
-             "differential execution of both real texts on the extracted AVM.",
+        text="Proof (Coq, closed under the global context, 25 property theorems over 270 obligations). Site level: if createConstantBlocks succeeds on an input whose constant pseudo-ops assemble, the output is "
+             "block lines ++ body, every non-constant component is unchanged in place and every constant site loads exactly the value the pseudo-op denotes per the assembler grammar "
+             "(C12_constants_sites_preserved, C12_constants_step_simulation, C12_load_value_is_step). WHOLE PROGRAM (Props/C12_program.v): C12_constants_program_equiv - after the block lines have run, the "
+             "pseudo-op program and the assembled-constants program are in LOCK STEP on the reference machine (same stack, state and call stack up to the pc shift) for every context, forever, hence the same "
+             "verdict and final state at every fuel; frame lemma C12_step_frame (only the constant opcodes read or change the constant registers); C12_constants_text_equiv / "
+             "C12_constants_compiled_text_equiv: the same for the two TEXTS the compile model prints with and without constant assembly. Side conditions: indexes <= 255 (the refuted case, open known "
+             "finding index-gt-255), no addr-template site (open known finding tmpl-addr-context), no user-written block opcodes (shown necessary). Tie: constants.py vs Comp/Constants.v on exhaustive "
+             "small lists over 9 ops, colliding argument texts across pseudo-op kinds, random lists and whole programs; site-value oracle on the REAL output through the extracted assembler grammar.",
         note="Trusted: Coq kernel; AVM/Parse.v (literal grammar) and Machine.v block ops as specs; RFC 4648 digit values validated against CPython each run; SHA-512/256 as oracle; textual template instantiation; "
              "the whole-run bisimulation (pc shift by the block lines) is not proved - differential execution only; extraction + driver.",
         technique="Coq proof (induction over op lists, sortedness invariant) + text-equality correspondence + extracted-parser site oracle + extracted-AVM differential run",
         design_ref="DESIGN.md §4 C12, design_notes/C12.md"),
     "C02": dict(
-        text="Proof (Coq, closed under the global context, 35 property theorems over 685 obligations), partial at the top level. Pieces, for all inputs: the spill/restore code around a re-entrant call has "
+        text="Proof (Coq, closed under the global context, 55 property theorems over 783 obligations), partial at the top level. Pieces, for all inputs: the spill/restore code around a re-entrant call has "
              "the frame property (C02_spill_frame_same_type, C02_wrapped_call_protects: results delivered, every local slot restored, nothing else touched); the scratch prologue binds parameter i to "
              "argument i; callsub/proto/frame_dig/frame_bury/retsub steps on the reference machine. Composition (Props/C02_compose.v): the LINKED code - main followed by the subroutines, callsub/retsub with a "
              "call stack - computes the call-aware source semantics for ANY call graph (C02_link_star, C02_linked_calls_realized; the C01 chain re-checked against a call oracle in coq/CallX), program-level "
              "C02_call_correct_nonrecursive_partial and C02_call_correct_recursive_partial (with the emitted spill code), and against Src/DenoteCall.v for by-value parameters, scratch convention, "
-             "non-failing runs (C02_by_value_sim, C02_call_correct_nonrecursive_by_value_partial). Open: frame-pointer convention end to end, by-reference parameters and failing runs against denote_c, "
-             "deriving label uniqueness from the pipeline. Tie: exact text equality model vs compileTeal on directed call shapes and seeded random call graphs (self/mutual recursion, by-reference, "
+             "non-failing runs (C02_by_value_sim, C02_call_correct_nonrecursive_by_value_partial). Machine level (Props/C02_machine.v): Machine.step simulates the linked semantics step for step, call stack included "
+             "(C02_machine_simulates_linked, C02_machine_bridge_linked); the printed text of a program WITH subroutines parses to the linked program (C02_linked_text_runs) and "
+             "C02_program_text_calls_*_partial carry the composed statements down to Machine.run on the parsed text; frame-pointer convention on the machine: frame rule for every instruction "
+             "(C02_machine_step_frame) and the call protocol C02_fp_call_protocol (results buried at the frame pointer come back as results ++ caller stack, caller cells untouched), linked semantics "
+             "extended with proto/frame_dig/frame_bury and bridged (C02_machine_bridge_fp). Open: source-level meaning of the frame instructions (the compose theorems stay at the scratch "
+             "convention), by-reference parameters and failing runs against denote_c, deriving label uniqueness / printable / targets_ok from the pipeline. Tie: exact text equality model vs compileTeal on directed call shapes and seeded random call graphs (self/mutual recursion, by-reference, "
              "none/uint64/bytes results, versions 4..10 x frame_pointers x scratch_slots), every real output executed on the extracted AVM against the call-aware semantics, plus free-form real programs "
              "(ABI-returning routines with by-reference parameters, DynamicScratchVar ...) checked against their own expected verdict. Two open known findings (control transfer inside an operand; optimiser "
              "orphan store); one defect repaired in /repo (258948a).",
